@@ -166,6 +166,16 @@ func nilCases() []nilCase {
 		{"errors.WithMessagef", func() error { return errors.WithMessagef(n, "m %d", 1) }, ""},
 		{"errors.Wrap", func() error { return errors.Wrap(n, "m") }, ""},
 		{"errors.Wrapf", func() error { return errors.Wrapf(n, "m %d", 1) }, ""},
+		{"errors.Wrapf", func() error { return errors.Wrapf(n, "m %v", otherErr) }, ""},
+		{"errors.WrapWithDepthf", func() error { return errors.WrapWithDepthf(0, n, "m %v %v", otherErr, 1) }, ""},
+		{"errors.NewAssertionErrorWithWrappedErrf", func() error { return errors.NewAssertionErrorWithWrappedErrf(n, "m %v", otherErr) }, ""},
+		{"errors.WithMessagef", func() error { return errors.WithMessagef(n, "m %v", otherErr) }, ""},
+		{"errors.WithHintf", func() error { return errors.WithHintf(n, "h %v", otherErr) }, ""},
+		{"errors.WithDetailf", func() error { return errors.WithDetailf(n, "d %v", otherErr) }, ""},
+		{"errors.WithSafeDetails", func() error { return errors.WithSafeDetails(n, "d %v", otherErr) }, ""},
+		{"status.WrapErrf", func() error { return grpcstatus.WrapErrf(codes.NotFound, n, "m %v", otherErr) }, ""},
+		{"errutil.Wrapf", func() error { return errutil.Wrapf(n, "m %v", otherErr) }, ""},
+		{"errutil.WrapWithDepthf", func() error { return errutil.WrapWithDepthf(0, n, "m %v", otherErr) }, ""},
 		{"errors.WrapWithDepth", func() error { return errors.WrapWithDepth(0, n, "m") }, ""},
 		{"errors.WrapWithDepthf", func() error { return errors.WrapWithDepthf(0, n, "m %d", 1) }, ""},
 		{"errors.WithStack", func() error { return errors.WithStack(n) }, ""},
@@ -321,6 +331,7 @@ var notConstructors = map[string]bool{
 func nilTable(r *core.Result) {
 	covered := map[string]bool{}
 	for _, nc := range nilCases() {
+		covered[nc.name+nilVariant(nc.name, covered)] = true
 		covered[nc.name] = true
 		nc := nc
 		var got error
@@ -334,7 +345,7 @@ func nilTable(r *core.Result) {
 		case nc.want == "arg" && !tm.Same(got, otherErr):
 			r.Violate("nil-arg|"+nc.name, fmt.Sprintf("%s(nil, e) = %v, want e", nc.name, got), map[string]interface{}{"nil_case": nc.name})
 		case nc.want == "" && got != nil:
-			r.Violate("nil-not-nil|"+nc.name, fmt.Sprintf("%s(nil, …) returned a non-nil error (%T: %q); every wrapper constructor must return nil for a nil error", nc.name, got, got.Error()), map[string]interface{}{"nil_case": nc.name})
+			r.Violate("nil-not-nil|"+nc.name+nilVariant(nc.name, covered), fmt.Sprintf("%s(nil, …) returned a non-nil error (%T: %q); every wrapper constructor must return nil for a nil error", nc.name, got, got.Error()), map[string]interface{}{"nil_case": nc.name})
 		}
 	}
 	r.Outcome("nil-table")
@@ -369,4 +380,13 @@ func nilTable(r *core.Result) {
 			r.Uncovered = append(r.Uncovered, "nil-table:"+s)
 		}
 	}
+}
+
+// nilVariant distinguishes the second (error-valued format argument)
+// entry of a constructor in the nil table.
+func nilVariant(name string, seen map[string]bool) string {
+	if seen[name] {
+		return "|err-arg"
+	}
+	return ""
 }
